@@ -111,6 +111,24 @@ theorem update_upper_bound (s o : GtidSet) (ho : (keys o).Nodup) :
   ⟨fun k x h => (update_is_union s o ho k x).mpr (Or.inl h),
    fun k x h => (update_is_union s o ho k x).mpr (Or.inr h)⟩
 
+/-- `Normalize` of non-empty intervals is the normal form the other theorems assume -/
+theorem normalize_is_normal (l : IvList) (h : ∀ j ∈ l, j.start < j.stop) : Normal (normalize l) :=
+  GtidLemmas.normal_normalize l h
+
+/-- a joined position is well-formed again, so `Contain`/behind/ahead/split-brain keep their set
+meaning on executed ∪ retrieved -/
+theorem update_keeps_wf (s o : GtidSet) (hs : WF s) (ho : WF o) : WF (update s o) :=
+  GtidLemmas.wf_update s o hs ho.2
+
+/-- corollary: a node is behind-or-equal the join of two sets iff each of its transactions is in one
+of them -/
+theorem behind_union_iff (slave a b : GtidSet) (hs : WF slave) (ha : WF a) (hb : WF b) :
+    isSlaveBehindOrEqual slave (update a b) = true ↔ ∀ k x, slave.Mem k x → (a.Mem k x ∨ b.Mem k x) := by
+  rw [behind_iff_subset slave (update a b) (update_keeps_wf a b ha hb) hs]
+  constructor
+  · intro h k x hm; exact (update_is_union a b hb.1 k x).mp (h k x hm)
+  · intro h k x hm; exact (update_is_union a b hb.1 k x).mpr (h k x hm)
+
 -- non-vacuity: concrete well-formed sets, one a strict subset of the other, one diverged
 private def u1 : Key := ⟨"00000000-0000-0000-0000-000000000001", ""⟩
 private def u2 : Key := ⟨"00000000-0000-0000-0000-000000000002", ""⟩
